@@ -117,14 +117,14 @@ Definition cola_checks (sname : string) (aq : option Q) (size : Z) (w : list pyv
       | Some C => cola_ok (size # Pos.pow 2 45) w (Z.to_nat (size / m)) (Z.to_nat m) C
       | None => true
       end
-    else true) [2; 3; 4]%Z.
+    else true) [2; 3; 4; 8]%Z.
 
 (* What the property text demands of the three observed lists.  The range / symmetry / no-exception demands are
    made only for alpha inside the stated domain (Spec.alpha_ok); the structural ones (lengths, prefix, wsymm(1))
    whenever lists were returned.  Symmetry of the float list is demanded up to size * 2^-45 (2^-20 for a cos
    window with 0 < alpha < 1, where x ** alpha amplifies the rounding of sin(pi) near 0): NEVER bitwise.
    Overlap-add: the hop-shifted sums of the observed periodic window are the constant of Spec.cola_const up to
-   size * 2^-45, for hop = size/2 and size/4 (rect: also size/3). *)
+   size * 2^-45, for hop = size/2, size/3, size/4, size/8 where Spec.cola_const promises one. *)
 Definition holds_win (c : wcase) : bool :=
   match primary_of (c_name c) with
   | None => true                                   (* not a strategy name: nothing is promised *)
